@@ -397,6 +397,32 @@ fn collect_pat_idents(p: &syn::Pat, out: &mut Vec<String>) {
     }
 }
 
+// a &'static str constant: string literal, FIELD of an upper-case const (SYMBOL.slash, METHOD.get), or Type::CONST
+fn is_static_str(e: &Expr) -> bool {
+    match e {
+        Expr::Lit(syn::ExprLit { lit: syn::Lit::Str(_), .. }) => true,
+        Expr::Field(f) => {
+            if let Expr::Path(p) = &*f.base {
+                let n = path_string(&p.path);
+                return n == "SYMBOL" || n == "METHOD" || n == "VERSION";
+            }
+            false
+        }
+        Expr::Path(p) => {
+            if p.path.segments.len() == 2 {
+                let last = p.path.segments[1].ident.to_string();
+                let first = p.path.segments[0].ident.to_string();
+                let upper = last.chars().all(|c| c.is_ascii_uppercase() || c == '_' || c.is_ascii_digit());
+                return upper && ["Header", "Range", "MimeType", "Request", "Response", "Config", "Cors"].contains(&first.as_str());
+            }
+            false
+        }
+        Expr::Reference(r) => is_static_str(&r.expr),
+        Expr::Paren(p) => is_static_str(&p.expr),
+        _ => false,
+    }
+}
+
 fn path_string(p: &syn::Path) -> String {
     p.segments.iter().map(|s| s.ident.to_string()).collect::<Vec<_>>().join("::")
 }
@@ -467,6 +493,18 @@ impl VisitMut for Rw {
                             break;
                         }
                     }
+                }
+            }
+            Expr::Binary(b) if matches!(b.op, syn::BinOp::Eq(_) | syn::BinOp::Ne(_)) && (is_static_str(&b.left) || is_static_str(&b.right)) => {
+                // R-STREQ: comparison with a &'static str constant -> shim with the obvious spec (Verus has none for String == &str)
+                let ne = matches!(b.op, syn::BinOp::Ne(_));
+                let (a, c) = if is_static_str(&b.right) { ((*b.left).clone(), (*b.right).clone()) } else { ((*b.right).clone(), (*b.left).clone()) };
+                let sp = match &b.op { syn::BinOp::Eq(t) => t.spans[0], syn::BinOp::Ne(t) => t.spans[0], _ => Span::call_site() };
+                self.log("R-STREQ", sp, "comparison with a &'static str constant -> rws_eq_str");
+                if ne {
+                    *e = parse_quote! { !(#a).rws_eq_str(#c) };
+                } else {
+                    *e = parse_quote! { (#a).rws_eq_str(#c) };
                 }
             }
             Expr::Binary(b) => {
@@ -667,6 +705,20 @@ fn emit_fn(
         sig.output = parse_quote! { -> __RwsRet<#t> };
     }
     let entry = format_ident!("entry_{}", tag);
+    // R-MUTPARAM: `mut x: T` by-value parameters become `x: T` + `let mut x = x;` so that a contract can name the argument
+    let mut rebinds: Vec<Stmt> = vec![];
+    for a in sig.inputs.iter_mut() {
+        if let syn::FnArg::Typed(pt) = a {
+            if let syn::Pat::Ident(pi) = &mut *pt.pat {
+                if pi.mutability.is_some() && pi.by_ref.is_none() {
+                    pi.mutability = None;
+                    let id = pi.ident.clone();
+                    rebinds.push(parse_quote! { let mut #id = #id; });
+                    rw.rules.push(RuleApp { rule: "R-MUTPARAM", line: line_of(id.span()), detail: format!("mut {}: T -> {}: T; let mut {} = {};", id, id, id, id) });
+                }
+            }
+        }
+    }
     let text;
     if mode == "assume" {
         let ts = quote! {
@@ -677,7 +729,7 @@ fn emit_fn(
         rw.visit_block_mut(&mut body);
         let stmts = &body.stmts;
         let ts = quote! {
-            #vis #sig { __rws_pt!(#entry); #(#stmts)* }
+            #vis #sig { __rws_pt!(#entry); #(#rebinds)* #(#stmts)* }
         };
         text = ts.to_string();
     }
